@@ -56,8 +56,8 @@ LinesText(ls, i, indent, finalNl) ==
        \o LinesText(ls, i + 1, indent, finalNl)
 
 \* contexts: [pre (text before the header), n (parent indentation), after (a following less-indented node) with its events]
-E_(k, v, style) == [k |-> k, v |-> v, style |-> style, aid |-> 0, tag |-> <<>>]
-P_(v) == E_("Scalar", v, "plain")
+EB_(k, v, style) == [k |-> k, v |-> v, style |-> style, aid |-> 0, tag |-> <<>>]
+PB_(v) == EB_("Scalar", v, "plain")
 BCtx(name) ==
   IF name = "top" THEN [pre |-> <<>>, n |-> -1, follow |-> <<>>]
   ELSE IF name = "topdoc" THEN [pre |-> <<"-", "-", "-", " ">>, n |-> -1, follow |-> <<>>]
@@ -67,9 +67,9 @@ BCtx(name) ==
   ELSE [pre |-> <<"k", ":", "\n", "-", " ", "j", ":", " ">>, n |-> 2, follow |-> <<"-", " ", "z", "\n">>]      \* "seqmap": - j: | inside k:
 BCtxNames == {"top", "topdoc", "mapvalue", "seqentry", "nested", "seqmap"}
 WrapB(name, ev, followed) ==
-  LET SS == E_("StreamStart", <<>>, "") SE == E_("StreamEnd", <<>>, "") DS == E_("DocumentStart", <<>>, "implicit") DX == E_("DocumentStart", <<>>, "explicit")
-      DE == E_("DocumentEnd", <<>>, "") MS == E_("MappingStart", <<>>, "") ME == E_("MappingEnd", <<>>, "") QS == E_("SequenceStart", <<>>, "") QE == E_("SequenceEnd", <<>>, "")
-      K == P_(<<"k">>) J == P_(<<"j">>) Z == P_(<<"z">>) W == P_(<<"w">>)
+  LET SS == EB_("StreamStart", <<>>, "") SE == EB_("StreamEnd", <<>>, "") DS == EB_("DocumentStart", <<>>, "implicit") DX == EB_("DocumentStart", <<>>, "explicit")
+      DE == EB_("DocumentEnd", <<>>, "") MS == EB_("MappingStart", <<>>, "") ME == EB_("MappingEnd", <<>>, "") QS == EB_("SequenceStart", <<>>, "") QE == EB_("SequenceEnd", <<>>, "")
+      K == PB_(<<"k">>) J == PB_(<<"j">>) Z == PB_(<<"z">>) W == PB_(<<"w">>)
   IN IF name = "top" THEN <<SS, DS, ev, DE, SE>>
      ELSE IF name = "topdoc" THEN <<SS, DX, ev, DE, SE>>
      ELSE IF name = "mapvalue" THEN <<SS, DS, MS, K, ev>> \o (IF followed THEN <<Z, W>> ELSE <<>>) \o <<ME, DE, SE>>
@@ -86,6 +86,6 @@ RenderBlock(name, ls, literal, chomp, extra, explicit, order, comment, ending) =
       ind == IF explicit THEN (IF c.n < 0 THEN indent ELSE indent - c.n) ELSE 0
       body == LinesText(ls, 1, indent, ending # "none")
       txt == c.pre \o Header(literal, chomp, ind, order, comment) \o <<"\n">> \o body \o (IF ending = "follow" THEN c.follow ELSE <<>>)
-      ev == E_("Scalar", BlockValue(ls, literal, chomp), IF literal THEN "literal" ELSE "folded")
+      ev == EB_("Scalar", BlockValue(ls, literal, chomp), IF literal THEN "literal" ELSE "folded")
   IN [txt |-> txt, evs |-> WrapB(name, ev, ending = "follow")]
 ==============================================================================
